@@ -89,7 +89,7 @@ impl Prop for C07Searches {
             prop_oneof![8 => Just(0u8), 1 => Just(1u8), 1 => Just(2u8), 1 => Just(3u8)],
             any::<bool>(),
             any::<bool>(),
-            prop_oneof![2 => Just(0u8), 1 => Just(1u8), 2 => Just(2u8)],
+            prop_oneof![2 => Just(0u8), 1 => Just(1u8), 2 => Just(2u8), 2 => Just(3u8)],
         )
             .prop_map(|(fen, depth, pool, half, reps, via_game, used_generator, again)| SearchCase {
                 fen,
@@ -200,17 +200,33 @@ impl Prop for C07Searches {
                     pos2.side = pos.side.other();
                     pos2.ep = None;
                 }
+                if c.again == 3 {
+                    // a different position of the same game, two plies on, with the clock
+                    // right at the draw threshold
+                    for sel in [c.half as u16 * 257, c.reps as u16 * 4099 + 77] {
+                        let l = pos2.legal_moves();
+                        if l.is_empty() {
+                            break;
+                        }
+                        pos2 = pos2.make(&gen::select(&l, sel.wrapping_mul(31)));
+                    }
+                    pos2.half = 96 + (c.half as u32 % 6);
+                }
                 if pos2.consistent().is_ok() {
                     let legal2 = pos2.legal_moves();
                     board.set_turn(to_color(pos2.side));
-                    if c.again == 2 && pos.ep.is_some() {
-                        // the flipped position has no en-passant target: use a from-scratch board
+                    if (c.again == 2 && pos.ep.is_some()) || c.again == 3 {
+                        // not reachable by flipping the turn: use a from-scratch board
                         board = to_board(&pos2);
                     }
                     let before2 = snapshot(&board);
                     let r2 = no_panic(|| p.install(|| alpha_beta_search(&mut ctx, &mut board, &mut g)));
                     let after2 = snapshot(&board);
-                    st.label(if c.again == 2 { "second-search-other-side-same-context" } else { "second-search-same-position-same-context" });
+                    st.label(match c.again {
+                        2 => "second-search-other-side-same-context",
+                        3 => "second-search-later-position-clock-near-100-same-context",
+                        _ => "second-search-same-position-same-context",
+                    });
                     if let Some(d) = snapshot_diff(&before2, &after2) {
                         return Err(fail_pos(format!("second search on the same context changed the caller's board: {}", d), &pos2));
                     }
@@ -224,7 +240,11 @@ impl Prop for C07Searches {
                         return Err(fail_pos(
                             format!(
                                 "a second search with the same context ({}) did not return a legal move of {} ({} legal moves)",
-                                if c.again == 2 { "same placement, other side to move" } else { "same position" },
+                                match c.again {
+                                    2 => "same placement, other side to move",
+                                    3 => "a later position with the clock near 100",
+                                    _ => "same position",
+                                },
                                 pos2.fen(),
                                 legal2.len()
                             ),
